@@ -99,6 +99,10 @@ def gen_program(rng, n=None, p_sw=0.2, p_oneof=0.25, p_rec=0.0, p_fail=0.15, p_n
                                         nodes[x]['delay'] = rng.choice([0, 0.3])
                                         nodes[x]['exceptions'] = None
                                         nodes[x]['fails'] = ['EA', None]
+        # un-marked nodes: declare no dependency at all (the builder links them to the input node implicitly)
+        for nd in nodes[1:]:
+            if nd['params'] and all(mk == ['in', 0] for _, mk in nd['params']) and rng.random() < 0.12:
+                nd['params'] = []
         if retry:
             for nd in nodes[1:]:
                 if rng.random() < retry:
